@@ -373,10 +373,16 @@ class Mesh:
             },
         }
 
-    def _decode_cell_data(self, cell_data: Dict[str, List[ndarray]]):
+    def _decode_cell_data(self,
+                          cell_data: Dict[str, List[ndarray]],
+                          t2f: Optional[ndarray] = None):
 
         subdomains = {}
         boundaries = {}
+        # the bit masks refer to the facets of the elements in the local
+        # order in which the elements were written
+        if t2f is None:
+            t2f = self.t2f
 
         for name, data in cell_data.items():
             subnames = name.split(":", 2)
@@ -389,7 +395,7 @@ class Mesh:
                     (1 << np.arange(self.refdom.nfacets))[:, None]
                     & data[0].astype(np.int32)
                 ).astype(bool)
-                facets = self.t2f[mask]
+                facets = t2f[mask]
                 cells = mask.nonzero()[1]
                 order = np.argsort(facets)
                 facets, cells = facets[order], cells[order]
